@@ -111,6 +111,7 @@ func (a *Emitter) Append(e *Emitter) {
 	}
 
 	a.address = e.address
+	a.base = e.base
 	a.baseSet = e.baseSet
 	a.flagsTracker = e.flagsTracker
 
